@@ -164,25 +164,31 @@ func (w *world) invariants(after string, adopt bool) bool {
 			return w.fail("flow-lost", fmt.Sprintf("after %s: flow %d disappeared; the model still holds it", after, ki))
 		}
 	}
-	// advertised time to next expiry
+	// advertised time to next expiry: against the earliest deadline of the queue as just read (the model has been
+	// compared with those deadlines above, to the minute); what may differ is only the real time that passed
+	// between the snapshot and this call - measured, not assumed (a loaded machine may take seconds)
 	got := w.ap.GetExpiryFromExpirePriorityQueue()
+	after2 := time.Now()
 	var want time.Duration
-	earliest := math.MaxInt
-	for _, mf := range w.m {
-		if mf.held {
-			earliest = minI(earliest, minI(mf.active, mf.inactive))
+	if len(heap) == 0 {
+		want = time.Duration(minI(A, I)) * time.Minute
+	} else {
+		earliestT := heap[0].Active
+		for _, h := range heap {
+			for _, t := range []time.Time{h.Active, h.Inactive} {
+				if t.Before(earliestT) {
+					earliestT = t
+				}
+			}
+		}
+		want = intermediate.MinExpiryTime
+		if rem := earliestT.Sub(after2); rem > 0 {
+			want += rem
 		}
 	}
-	switch {
-	case earliest == math.MaxInt:
-		want = time.Duration(minI(A, I)) * time.Minute
-	case earliest <= w.now:
-		want = intermediate.MinExpiryTime
-	default:
-		want = intermediate.MinExpiryTime + time.Duration(earliest-w.now)*time.Minute
-	}
-	if d := got - want; d > 2*time.Second || d < -2*time.Second {
-		return w.fail("advertised-expiry", fmt.Sprintf("after %s: GetExpiryFromExpirePriorityQueue() = %v, expected %v (earliest deadline %d, now %d)", after, got, want, earliest, w.now))
+	tol := 500*time.Millisecond + after2.Sub(snapNow)
+	if d := got - want; d > tol || d < -tol {
+		return w.fail("advertised-expiry", fmt.Sprintf("after %s: GetExpiryFromExpirePriorityQueue() = %v, expected %v +- %v (earliest deadline of the queue, now %d)", after, got, want, tol, w.now))
 	}
 	w.c.Add("invariant_checks", 1)
 	return true
